@@ -304,6 +304,41 @@ CLAIMED = {
         note="<=3 keys, 2 labels, 1 property, 1 relationship type; clean restart by library calls (real binary not started, crash points not "
              "explored); ids expected to survive recovery; open findings: RESP persists only returned entities, HTTP persists nothing.",
         ref="DESIGN.md §4 C19"),
+    "C30": dict(
+        text="ColumnMap.tla models ColumnStore as the map (row,key)->value with bulk loads kept symbolically. TLC checks the history-based "
+             "statement of C30 (last write wins, exact key listing) on the design. It enumerates every operation sequence of length 2-5 "
+             "over six row classes, which the harness instantiates around pre-built dense/sparse/gappy columns of every element type at "
+             "the real dense_is_smaller break-even rows. Seeded adversarial sequences (3*10^4 quick / 4*10^5 thorough events) come from "
+             "the harness. Every get_property/get_property_keys result of touched and probe rows and run-length-compressed full column "
+             "scans are validated by TLC against ColumnMap_Trace.tla. The run fails unless promotion, demotion, growth, rebase and both "
+             "type spills were crossed.",
+        note="Row classes per pre-built column, not arbitrary rows. Whether a key holding an explicit Null is listed is left open (the "
+             "property does not define it). len/is_dense/key order not constrained.",
+        ref="DESIGN.md §4 C30"),
+    "C29": dict(
+        text="VectorIdx.tla models nodes (labels, vector properties), declared indexes and the physical add_vector log with entry status "
+             "(current/stale/dead), one action per GraphStore mutator incl. create_vector_index(+backfill) and rebuild. C29 is an exact "
+             "top-k predicate over integer ranking classes (cosine by cross-multiplication, L2, dot), proved equal to the property's "
+             "wording on the model by TLC. Transition cover over 2 ids, 3 ids at depth 2 in thorough, random walks and harness-generated "
+             "random histories are replayed through the GraphStore API and as Cypher statements. After every step every search "
+             "(index x query x k) is run and judged by TLC. The three defects of the pinned tree are named deviations explained by the "
+             "physically kept entries / forced cosine.",
+        note="2-D integer vectors |c|<=3, no zero vector; exact ties in any order. Exact clauses for <=128 add_vector calls since (re)build, "
+             "above that only soundness clauses (live, multiplicity, sorted, <=k). Bare create_vector_index over existing eligible nodes "
+             "not driven. Open: KF_C29_AppendOnlyEntries, KF_C29_DeletedStillIndexed, KF_C29_MetricIgnored.",
+        ref="DESIGN.md §4 C29"),
+    "C28": dict(
+        text="Hierarchy.tla models the covering relation, measures (integers and halves), a label-restricted measure set and the static "
+             "index (snapshot cover, measure vector, poset nodes, none/fresh/stale). The index answers by definition as brute force over "
+             "its snapshot; C28 is the invariant Fresh plus 'stale does not answer'. TLC enumerates every labelled DAG over 3 and 4 nodes "
+             "(every 5-node DAG up to renaming in thorough) x every forced encoding x measure-update sequences. At the OehIndex level all "
+             "pairs subsumes/LCA, all descendant sets and all sum/count/min/max roll-ups are compared after every step. At the GraphStore "
+             "level the index is declared by DDL and measure writes (API and Cypher SET/REMOVE), covering-edge writes and REBUILD are "
+             "replayed. Six query shapes per root are run with and without the index; TLC requires equal row bags and, for rewritten "
+             "queries, a usable index and the brute-force rows. Thorough adds random posets up to 300 nodes checked by closure certificates.",
+        note="Update sequences <=3 (3 nodes) / <=2 (4 nodes; thorough replays a seeded sample of 100k of 252k scripts). Large posets: sampled "
+             "roots/pairs. subsumes()-predicate rewrites not compared. Labels fixed after build.",
+        ref="DESIGN.md §4 C28"),
 }
 
 NOT_YET = "check not built yet in this round (planned in DESIGN.md §4); not claimed until its check is green on the unchanged tree"
